@@ -9,7 +9,7 @@ from sa import pm, slots, tm
 from sa.core import Ctx
 from sa.sm import call_kw, const_str, dotted, find_calls, fstring_skeleton, norm
 
-from . import common, printers
+from . import common, printers, util
 
 JAX_CALLABLE = {
     "numpy.where", "numpy.logical_and", "numpy.logical_or", "numpy.logical_not", "numpy.sign", "numpy.sqrt", "numpy.zeros_like",
@@ -79,43 +79,48 @@ def return_arity(ctx: Ctx, rule: str):
 
 
 def jax_template(ctx: Ctx, rule: str):
+    from sa import av
+
     sm = ctx.sm
     T = tm.TemplateModel(sm)
     f = T.func("templates/jax.py", "method")
     ctx.require(f, "templates/jax.py::method not found")
-    # return list: _values_i for i in range(num_return_values)
-    comps = [n for n in ast.walk(f.node) if isinstance(n, ast.ListComp)]
-    ok = False
+    sk = util.skeleton(ctx, rule, "templates/jax.py", "method")
     prefix = None
-    for c in comps:
-        g = c.generators[0]
-        sk = fstring_skeleton(c.elt)
-        if sk and norm(g.iter) == "range(num_return_values)" and isinstance(g.target, ast.Name) and not g.ifs:
-            m = re.fullmatch(r"(\w+?)\{" + g.target.id + r"\}, ", sk)
-            if m:
-                ok, prefix = True, m.group(1)
-    ctx.check(ok, rule, f.key("return-list"), f"returns numpy.array([{prefix}0 .. {prefix}(num_return_values-1)])", "jax method template: the returned array is not built from `_values_{i}` for i in range(num_return_values) (entries can be missing, duplicated or permuted)", f.where())
-    rl = [n for n in ast.walk(f.node) if isinstance(n, ast.Assign) and norm(n.targets[0]) == "return_name_lst"]
-    okr = bool(rl) and norm(rl[0].value).replace("'", '"').startswith('["numpy.array(["] + [') and norm(rl[0].value).replace("'", '"').endswith('+ ["])"]')
-    ctx.check(okr, rule, f.key("return-array"), "numpy.array([...])", "jax method template: return value is not numpy.array([<the list>])", f.where())
-    sk = T.skeleton("templates/jax.py", "method")
-    ctx.check("{indent_return}" in sk.raw and sk.raw.find("{indent_values}") < sk.raw.find("{indent_return}"), rule, f.key("return-after-body"), "return follows the body", "jax method template: the return statement does not follow the body", f.where())
-    ctx.check("@jax.jit" in sk.raw, rule, f.key("jit"), "functions are jitted", "jax method template lost @jax.jit", f.where())
+    if sk is not None:
+        raw = sk.raw
+        # return list: _values_i for i in range(num_return_values), in that order, wrapped in numpy.array([...])
+        m = re.search(r"return (.*)⟦for \$(\d+) in ([^:]*): (\w+?)\{\$(\d+)\}, ⟧(.*)$", raw.rstrip().split("\n")[-1])
+        ok = m is not None and m.group(2) == m.group(5) and m.group(3) == "range(num_return_values)"
+        prefix = m.group(4) if m else None
+        ctx.check(ok, rule, f.key("return-list"), f"returns [{prefix}0 .. {prefix}(num_return_values-1)]", f"jax method template: the returned array is not built from `_values_{{i}}` for i in range(num_return_values) (last line: {raw.rstrip().splitlines()[-1].strip()[:120]}); entries can be missing, duplicated or permuted", f.where())
+        okr = m is not None and m.group(1) == "numpy.array([" and m.group(6) == "])"
+        ctx.check(okr, rule, f.key("return-array"), "numpy.array([...])", "jax method template: return value is not numpy.array([<the list>])", f.where())
+        ctx.check(0 <= raw.find("{values}") < raw.find("return "), rule, f.key("return-after-body"), "return follows the body", "jax method template: the return statement does not follow the body", f.where())
+        ctx.check("@jax.jit" in raw, rule, f.key("jit"), "functions are jitted", "jax method template lost @jax.jit", f.where())
     # JaxPrinter rewrites exactly the stores into `values` to <prefix><index>
     jp = sm.func("codegen/jax.py", "JaxPrinter._print_Assignment")
-    frs = pm.fragments(jp)
-    rew = [fr for fr in frs if " = " in fr]
-    okp = bool(rew) and rew[0] == "_{sym.base.name}_{index} = {self._print(value)}"
-    conds = [norm(n.test) for n in ast.walk(jp.node) if isinstance(n, ast.If)]
-    okc = any("sym.base.name == 'values'" == c.replace('"', "'") for c in conds) and any("isinstance(sym, sympy.tensor.indexed.Indexed)" in c or "isinstance(sym, sympy.Indexed)" in c for c in conds)
-    ctx.check(okp and okc and prefix == "_values_", rule, jp.key("rewrite"), "values[i] = e  ->  _values_i = e", f"JaxPrinter._print_Assignment does not rewrite stores into `values` to `{prefix}<i> = ...` (fragments {rew}, conditions {conds})", jp.where())
-    idx = [n for n in ast.walk(jp.node) if isinstance(n, ast.Assign) and norm(n.targets[0]) == "index"]
-    ctx.check(bool(idx) and norm(idx[0].value) == "self._print(sym.indices[0])", rule, jp.key("index"), "index = the store's own index", "JaxPrinter._print_Assignment: the suffix is not the printed index of the store", jp.where())
-    sup = [n for n in ast.walk(jp.node) if isinstance(n, ast.Return) and norm(n.value) == "super()._print_Assignment(expr)"]
-    ctx.check(bool(sup), rule, jp.key("fallthrough"), "other assignments are printed unchanged", "JaxPrinter._print_Assignment no longer falls through to the normal assignment printer", jp.where())
+    v = util.value_of(ctx, jp)
+    # specialise: the target is / is not an Indexed store into `values`
+    lhs = ("sym", "expr.lhs")
+    branches = _branches(v)
+    rew = [(c, x) for c, x in branches if av._is_str(x) and " = " in av.flatten(x)]
+    if av.has_unk(v) or not branches:
+        ctx.undecided(rule, jp.key("rewrite"), f"JaxPrinter._print_Assignment is not understood ({av.show(v)[:120]})", jp.where())
+    else:
+        want = "_" + av.HO + "expr.lhs.base.name" + av.HC + "_" + av.HO + "self._print(expr.lhs.indices[0])" + av.HC + " = " + av.HO + "self._print(expr.rhs)" + av.HC
+        okp = len(rew) == 1 and av.flatten(rew[0][1]) == want
+        conds = " and ".join(av.show(c) for c in (rew[0][0] if rew else ()))
+        okc = bool(rew) and "(expr.lhs.base.name == 'values')" in conds and ("isinstance(expr.lhs, sympy.tensor.indexed.Indexed)" in conds or "isinstance(expr.lhs, sympy.Indexed)" in conds) and len(rew[0][0]) == 2
+        ctx.check(okp and okc and prefix in (None, "_values_") , rule, jp.key("rewrite"), "values[i] = e  ->  _values_i = e", f"JaxPrinter._print_Assignment does not rewrite exactly the stores into `values` to `{prefix or '_values_'}<i> = <printed rhs>` (it emits {[av.show(x)[:80] for _, x in rew]} when {conds or None})", jp.where())
+        ctx.check(okp, rule, jp.key("index"), "suffix = the store's own printed index", "JaxPrinter._print_Assignment: the suffix is not the printed index of the store", jp.where())
+        other = [x for c, x in branches if (c, x) not in rew]
+        ctx.check(bool(other) and all(av.show(x) == "super()._print_Assignment(expr)" for x in other), rule, jp.key("fallthrough"), "other assignments are printed unchanged", "JaxPrinter._print_Assignment no longer falls through to the normal assignment printer for everything else", jp.where())
     # functional style
     for fn in ("method", "init_state_values", "init_parameter_values"):
-        skx = T.skeleton("templates/jax.py", fn)
+        skx = util.skeleton(ctx, rule, "templates/jax.py", fn)
+        if skx is None:
+            continue
         tree = tm.py_parse(skx)
         stores = [norm(n) for n in ast.walk(tree) if isinstance(n, (ast.Assign, ast.AugAssign)) and any(isinstance(x, ast.Subscript) for t in (n.targets if isinstance(n, ast.Assign) else [n.target]) for x in ast.walk(t))]
         ctx.check(not stores, rule, skx.func.key("no-subscript-store"), "no in-place store", f"jax template {fn} contains an in-place subscript store {stores} (jax arrays are immutable)", skx.func.where())
@@ -197,3 +202,14 @@ def _run(ctx: Ctx):
     ctx.rule("R03.b", "every numpy.<name> a gotranx print method can emit under the jax printer is callable that way under jax.numpy; n-ary And/Or keep every operand; no unvetted override", floor=8)
     jax_callable(ctx, "R03.b")
     printers.check_no_unvetted_override(ctx, "R03.b", "jax")
+
+
+def _branches(v, conds=()):
+    """[(conditions, value)] of a conditional value (conjunctions split)"""
+    if v[0] == "if":
+        c = v[1]
+        cs = c[2] if c[0] == "bool" and c[1] == "and" else (c,)
+        from sa import av
+
+        return _branches(v[2], conds + tuple(cs)) + _branches(v[3], conds + (av.mk_not(c),))
+    return [(conds, v)]
